@@ -33,6 +33,7 @@ from lib import h_iso
 from lib.vf import PY, REPO, VERIF, Ctx, open_known
 
 PROPS = "theories/Props/C02.v"
+DISPATCH_PROPS = "theories/Props/C02_dispatch_src.v"
 TARGETS = [PROPS + "o", "theories/Model/RouterExec.vo", "theories/Lib/Corr.vo"]
 MODEL_TARGETS = ["theories/Model/RouterExec.vo", "theories/Lib/Corr.vo"]
 FUEL = 400          # > nesting depth CPython reaches before RecursionError (about 4 frames per re-entrance)
@@ -106,7 +107,20 @@ def translate(ctx: Ctx):
         ctx.broken.append("shape guard tools/tr_router.py: %s" % str(e)[:500])
         ctx.obligations += 1
         guard = {"kind": "shape guard", "rejected": str(e)[:500]}
-    ctx.cov["translators"] = {"tr_router": guard, "tr_isolation": {
+    # the three dispatcher __call__ methods, regenerated; Props/C02_dispatch_src.v proves them equal to the router model's definitions
+    import tr_dispatch
+    try:
+        dfiles, dmeta = tr_dispatch.gen(str(REPO))
+        for n, t in dfiles.items():
+            ctx.write_gen(n, t)
+        disp_tr = {"rejected": None, "functions": dmeta["functions"]}
+    except Exception as e:      # noqa
+        for f in (ctx.coq / "gen").glob("DispatchSrc.*"):
+            f.unlink()
+        ctx.broken.append("translator tools/tr_dispatch.py rejects the source: %s" % str(e)[:400])
+        ctx.obligations += 1
+        disp_tr = {"rejected": str(e)[:400]}
+    ctx.cov["translators"] = {"tr_dispatch": disp_tr, "tr_router": guard, "tr_isolation": {
         "files_read": len(meta["files"]), "import_statements": meta["imports"],
         "distinct_non_simaple_imports": meta["distinct_imported"], "uses": ["%s: %s" % tuple(u) for u in meta["uses"]],
         "state_entries": len(meta["state"]),
@@ -170,6 +184,15 @@ def build_props(ctx: Ctx, meta):
     ok, log, failed = ctx.build(TARGETS)
     if ok:
         ctx.check_props(PROPS)
+        # the dispatcher methods regenerated from the source equal the router model's definitions (when the translator accepted them)
+        if (ctx.coq / "gen" / "DispatchSrc.v").exists():
+            ok3, log3, failed3 = ctx.build([DISPATCH_PROPS + "o"])
+            if ok3:
+                ctx.check_props(DISPATCH_PROPS)
+            else:
+                ctx.obligations += 1
+                ctx.broken.append("the dispatcher methods generated from the source are no longer the router model's definitions "
+                                  "(Proofs/DispatchTie.v): %s: %s" % (failed3, err_of(log3)))
         return True, focus
     ctx.obligations += 1
     msg = err_of(log)
